@@ -161,7 +161,7 @@ b("C10-b1", "C10", "dulwich/gc.py", "                            continue\n     
   "                    except KeyError:\n                        # Object not found, skip it\n                        continue\n\n                unreachable_to_prune.add(sha)\n", "R10.2")
 b("C10-b2", "C10", "dulwich/gc.py", "            if obj.object[1] not in reachable:\n                pending.append(obj.object[1])\n                reachable.add(obj.object[1])\n", "            pass\n", "R10.3")
 b("C10-b3", "C10", OS_, "        for pack in self._update_pack_cache():\n            try:\n                return pack.get_raw(sha)\n            except (KeyError, PackFileDisappeared):\n                pass\n", "", "R10.5")
-b("C10-b4", "C10", OS_, "            try:\n                yield from pack\n            except PackFileDisappeared as exc:\n                self._evict_pack(exc.obj)\n", "            yield from pack\n", "R10.4")
+b("C10-b4", "C10", OS_, "                try:\n                    yield from pack\n                except PackFileDisappeared as exc:\n                    self._evict_pack(exc.obj)\n", "                yield from pack\n", "R10.4")
 n("C10-n1", "C10", "dulwich/gc.py", "    reachable = find_reachable_objects(\n        object_store, refs_container, include_reflogs, progress\n    )\n\n    unreachable: set[ObjectID] = set()\n",
   "    reachable = find_reachable_objects(\n        object_store, refs_container, include_reflogs, progress\n    )\n    if progress:\n        progress(\"reachable objects found\")\n\n    unreachable: set[ObjectID] = set()\n")
 
